@@ -50,63 +50,7 @@ theorem c01_partial_confined (sem : Sem) (hwf : WF_C01 sem) (c : Cfg) (pre : Nat
   | false => rfl
   | true => have := hJ.fin_ok p f h hfr; simp [hinc] at this
 
-/-! ### any number of tasks, any interleaving -/
-
-/-- step task `i` of a list of tasks (a task that cannot move is left alone) -/
-def gstep (sem : Sem) (cs : List Cfg) (ss : List St) (i : Nat) : List St :=
-  match cs[i]?, ss[i]? with
-  | some c, some s => match step sem c s with | some s' => ss.set i s' | none => ss
-  | _, _ => ss
-
-def grun (sem : Sem) (cs : List Cfg) (ss : List St) : List Nat → List St
-  | [] => ss
-  | i :: is => grun sem cs (gstep sem cs ss i) is
-
-def ginit (sem : Sem) (cs : List Cfg) (pres : List (Nat → Option File)) : List St :=
-  (cs.zip pres).map fun (c, pre) => init sem c pre
-
-def GJ (cs : List Cfg) (s0s ss : List St) : Prop :=
-  ss.length = s0s.length ∧ ∀ (i : Nat) (c : Cfg) (s0 s : St), cs[i]? = some c → s0s[i]? = some s0 → ss[i]? = some s → J c s0 s
-
-theorem gstep_GJ (sem : Sem) (hwf : WF_C01 sem) (cs : List Cfg) (s0s ss : List St) (i : Nat)
-    (h : GJ cs s0s ss) : GJ cs s0s (gstep sem cs ss i) := by
-  unfold gstep
-  split
-  · rename_i c s hc hs
-    split
-    · rename_i s' hstep
-      refine ⟨by simp [h.1], ?_⟩
-      intro j c' s0 t hc' hs0 ht
-      by_cases hij : j = i
-      · subst hij
-        have hlt : j < ss.length := by
-          rcases Nat.lt_or_ge j ss.length with hl | hl
-          · exact hl
-          · simp [List.getElem?_eq_none hl] at hs
-        simp [List.getElem?_set, hlt] at ht
-        subst ht
-        rw [hc] at hc'; simp at hc'; subst hc'
-        exact step_J sem hwf c s0 s s' (h.2 j c s0 s hc hs0 hs) hstep
-      · rw [List.getElem?_set_ne (by omega)] at ht
-        exact h.2 j c' s0 t hc' hs0 ht
-    · exact h
-  · exact h
-
-theorem grun_GJ (sem : Sem) (hwf : WF_C01 sem) (cs : List Cfg) (s0s ss : List St) (sched : List Nat)
-    (h : GJ cs s0s ss) : GJ cs s0s (grun sem cs ss sched) := by
-  induction sched generalizing ss with
-  | nil => exact h
-  | cons i is ih => exact ih _ (gstep_GJ sem hwf cs s0s ss i h)
-
-theorem ginit_GJ (sem : Sem) (cs : List Cfg) (pres : List (Nat → Option File)) :
-    GJ cs (ginit sem cs pres) (ginit sem cs pres) := by
-  refine ⟨rfl, ?_⟩
-  intro i c s0 s hc hs0 hs
-  rw [hs0] at hs; simp at hs; subst hs
-  simp only [ginit, List.getElem?_map, List.getElem?_zip_eq_some, Option.map_eq_some_iff] at hs0
-  obtain ⟨⟨c', pre⟩, ⟨hc', _⟩, rfl⟩ := hs0
-  rw [hc] at hc'; simp at hc'; subst hc'
-  exact J_init sem c pre
+/-! ### any number of tasks, any interleaving (`gstep`/`grun`/`ginit` are defined in Lemmas/TaskFS) -/
 
 /-- C01 for any number of concurrently running tasks under every interleaving and every stopping
 point: a fresh file at any task's final path is complete and stems from a successful command. -/
